@@ -399,12 +399,11 @@ def local_rename_map(old_body: str, new_body: str, params: list):
     fwd, back = {}, {}
     ident = re.compile(r"[A-Za-z_]\w*$")
     for x, y in zip(a, b):
-        if x == y and x not in fwd and y not in back:
-            if ident.match(x):
-                fwd.setdefault(x, x)
-                back.setdefault(x, x)
+        if not (ident.match(x) and ident.match(y)):
+            if x != y:
+                return None
             continue
-        if not (ident.match(x) and ident.match(y)) or x in _KW or y in _KW or x in params or y in params:
+        if x != y and (x in _KW or y in _KW or x in params or y in params):
             return None
         if fwd.get(x, y) != y or back.get(y, x) != x:
             return None
